@@ -96,7 +96,7 @@ Valid(P, o) ==
                    /\ \A i \in 1..Len(o.stmts) : StmtWellFormed(P, o.stmts[i])
     [] o.op = "DelPol" ->
          /\ o.name \in DOMAIN P.pols
-         /\ IF o.all THEN ~PolAssigned(P, o.name)
+         /\ IF o.all THEN TRUE       \* on an assigned policy: a valid call that MUST be refused (MustRefuse)
             ELSE /\ o.preserve
                  /\ {o.stmts[i].name : i \in 1..Len(o.stmts)} \subseteq SeqSet(P.pols[o.name])
                  /\ o.stmts # <<>>
@@ -105,6 +105,10 @@ Valid(P, o) ==
                           /\ SeqSet(o.pols) \cap SeqSet(P.asg[o.dir].pols) = {}
     [] o.op = "DelAsg" -> o.all \/ (o.pols # <<>> /\ SeqSet(o.pols) \subseteq SeqSet(P.asg[o.dir].pols))
     [] OTHER -> FALSE
+
+(* deleting a policy that an assignment still lists must be refused ("can't delete. policy p is in use"
+   is what the API answers for the export direction); the program does not change *)
+MustRefuse(P, o) == o.op = "DelPol" /\ o.all /\ o.name \in DOMAIN P.pols /\ PolAssigned(P, o.name)
 
 MergeStmt(old, new) ==
   Stmt(old.name, old.conds \cup new.conds, old.acts \cup new.acts,
@@ -137,7 +141,8 @@ Apply(P, o) ==
          IN [P EXCEPT !.stmts = IF o.refer THEN @ ELSE PutStmts(@, o.stmts, 1),
                       !.pols  = Put(@, o.name, old \o names)]
     [] o.op = "DelPol" ->
-         IF o.all
+         IF MustRefuse(P, o) THEN P
+         ELSE IF o.all
          THEN LET rest   == Drop(P.pols, {o.name})
                   inUse  == UNION {SeqSet(rest[p]) : p \in DOMAIN rest}
                   orphan == SeqSet(P.pols[o.name]) \ inUse
